@@ -287,7 +287,7 @@ def plan(tier, seed):
         st = m.initial(i)
         for op in m.ops(st, 0):
             scs.append(dict(init=i, first=op))
-    return dict(scenarios=scs, exhaustive=True, chunk=1,
+    return dict(scenarios=scs, exhaustive=True, chunk=1, timeout=7200,
                 menus=dict(initial_states=INITS, fragments=FRAGS, replacements=REPL,
                            operations=['extend (fragment x identity map)', 'extend_types + extend twice', 'delete subset', 'pop', 'replicate', 'copy', 'subset', 'replace', 'save_lmpdat+load_lmpdat'],
                            menu='full menu (every identity map / deletion subset on states of <= 3-4 atoms) on the first %d level(s), covering menu below, one operation of every kind on the last level' % m.full_levels),
